@@ -8,6 +8,7 @@ import (
 	"io"
 	"strings"
 	"testing"
+	"unicode/utf8"
 
 	"github.com/go-gts/gts"
 	"github.com/go-gts/gts/seqio"
@@ -16,6 +17,7 @@ import (
 
 type c17Rec struct {
 	Desc string `json:"desc"`
+	Raw  []byte `json:"raw,omitempty"` // the description when it is not valid UTF-8 (JSON cannot hold it as a string)
 	Len  int    `json:"len"`
 	Seed int    `json:"seed"` // residue i is alphabet[(seed + i*step) % len]
 	Step int    `json:"step"`
@@ -100,6 +102,15 @@ func readAll(text string, how ...int) fastaRead {
 }
 
 func c17Check(c c17Case) *Violation {
+	if len(c.Recs) > 0 {
+		recs := append([]c17Rec(nil), c.Recs...)
+		for i := range recs {
+			if len(recs[i].Raw) > 0 {
+				recs[i].Desc = string(recs[i].Raw)
+			}
+		}
+		c.Recs = recs
+	}
 	switch c.Mode {
 	case "fuzz":
 		return c17Fuzz(c.Input)
@@ -281,6 +292,19 @@ func c17GenDesc(t *rapid.T) string {
 		return ""
 	case 1:
 		return rapid.SampledFrom([]string{" ", ">", " >x", "x ", "a  b", ">>", "LOCUS", "//", ";", "\\"}).Draw(t, "oddesc")
+	case 2:
+		// any byte that is not a line break: tabs, control characters, high bytes, UTF-8 sequences
+		n := rapid.IntRange(1, 24).Draw(t, "desclen")
+		var b []byte
+		for i := 0; i < n; i++ {
+			switch rapid.IntRange(0, 3).Draw(t, "chkind") {
+			case 0:
+				b = append(b, []byte(rapid.SampledFrom([]string{"\t", "é", "β", "→", "日本", "\x00", "\x7f", "\x0b", "\x0c", "\x85", "\xa0", "\xff", "\xc3"}).Draw(t, "odd"))...)
+			default:
+				b = append(b, byte(rapid.IntRange(32, 126).Draw(t, "ch")))
+			}
+		}
+		return string(b)
 	default:
 		n := rapid.IntRange(1, 40).Draw(t, "desclen")
 		b := make([]byte, n)
@@ -320,7 +344,11 @@ func c17Gen(t *rapid.T) c17Case {
 		default:
 			l = rapid.IntRange(0, 300).Draw(t, "len")
 		}
-		c.Recs = append(c.Recs, c17Rec{Desc: c17GenDesc(t), Len: l, Seed: rapid.IntRange(0, 92).Draw(t, "seed"), Step: rapid.IntRange(1, 7).Draw(t, "step")})
+		desc, raw := c17GenDesc(t), []byte(nil)
+		if !utf8.ValidString(desc) {
+			desc, raw = "", []byte(desc)
+		}
+		c.Recs = append(c.Recs, c17Rec{Desc: desc, Raw: raw, Len: l, Seed: rapid.IntRange(0, 92).Draw(t, "seed"), Step: rapid.IntRange(1, 7).Draw(t, "step")})
 	}
 	return c
 }
